@@ -33,6 +33,16 @@ PROPS = {
             "stopped() by quiescence) is judged on real traces only",
         ],
     },
+    "C07": {
+        "modules": ["Hannibal.Props.C07", "Hannibal.Props.C07Current"],
+        "theorems": ["Hannibal.C07_holds", "Hannibal.C07_current", "Hannibal.wellWired07_current"],
+        "cases": {"quick": {"C07": 1500}, "thorough": {"C07": 20000, "C03": 3000}},
+        "assumptions": COMMON_ASSUMPTIONS + [
+            "order clause (monC07o: a message submitted after k accepted restarts is handled by incarnation k+1) "
+            "is judged on real traces only",
+            "handles stay valid across restarts: structural in the model (the handle table is untouched by restart steps)",
+        ],
+    },
     "C12": {
         "modules": ["Hannibal.Props.C12"],
         "theorems": ["Hannibal.C12_holds", "Hannibal.C12_current", "Hannibal.C12_state",
